@@ -220,6 +220,8 @@ def _is_finite(v: t.Any) -> bool:
         return True  # also when too large for a float (where `math.isfinite` raises OverflowError)
     if hasattr(v, 'is_finite'):
         return v.is_finite()  # Decimal (which may be finite, but beyond the range of floats)
+    if isinstance(v, complex):
+        return math.isfinite(v.real) and math.isfinite(v.imag)  # (`math.isfinite` refuses complex numbers)
     try:
         return math.isfinite(v)
     except OverflowError:
